@@ -207,7 +207,14 @@ def reachable_arrays(c):
 
 def same_cell(a, b):
     """strict cell equality with NaN == NaN, NaT == NaT, and no bool/int/str confusion"""
-    return _cell(a) == _cell(b) or (_num(a) and _num(b) and not isinstance(a, (bool, np.bool_)) and not isinstance(b, (bool, np.bool_)) and a == b)
+    if _cell(a) == _cell(b):
+        return True
+    if _num(a) and _num(b) and not isinstance(a, (bool, np.bool_)) and not isinstance(b, (bool, np.bool_)):
+        # as Python numbers: int vs float is then compared exactly (NumPy would first round the int to float64)
+        pa = a.item() if isinstance(a, np.generic) else a
+        pb = b.item() if isinstance(b, np.generic) else b
+        return pa == pb
+    return False
 
 
 def _num(x):
